@@ -232,6 +232,19 @@ pub fn lib_tree_check(w: &mut World, root: &FDir, open: &[NodeId], prop: &str, w
             }
         }
     }
+    {
+        let by_path: BTreeMap<Vec<Vec<u16>>, &LibItem> = items.iter().map(|i| (i.path.clone(), i)).collect();
+        for n in w.model.live_nodes() {
+            if n == ROOT {
+                continue;
+            }
+            if let Some(it) = by_path.get(&units(&w.model.path_of(n))) {
+                if it.attrs != w.model.nodes[n].attrs & 0x3F {
+                    return Err(viol(prop, "attributes-differ", format!("{}: listed attributes {:#04x}, model {:#04x}", w.model.path_string(n), it.attrs, w.model.nodes[n].attrs), w.step_no));
+                }
+            }
+        }
+    }
     if with_times {
         let by_path: BTreeMap<Vec<Vec<u16>>, &LibItem> = items.iter().map(|i| (i.path.clone(), i)).collect();
         for n in w.model.live_nodes() {
@@ -656,6 +669,24 @@ pub fn post_step(w: &mut World, s: &mut Session, ctx: &PostCtx) -> Result<(), Vi
             Guarded::Hang => return Err(viol("C05", "hang", "stats()".into(), w.step_no)),
         }
         w.count_known = true;
+    }
+    if o.free_count && ctx.out.res.is_ok() {
+        // C05: removing an object gives back exactly the clusters it owned (its chain as decoded before the call)
+        if let (Op::Remove { .. }, Some(_)) = (ctx.op, ctx.out.victim) {
+            if let Some(vp) = ctx.out.victim_path.as_ref() {
+                if let Some(oi) = ctx.before.find(vp) {
+                    let owned = ctx.before.objs[oi].chain.len() as u32;
+                    if after.free != ctx.before.free + owned {
+                        return Err(viol(
+                            "C05",
+                            "clusters-not-reclaimed",
+                            format!("remove of {} (chain of {} cluster(s)): free entries {} -> {}", refdec::path_str(vp), owned, ctx.before.free, after.free),
+                            w.step_no,
+                        ));
+                    }
+                }
+            }
+        }
     }
     if o.lib_tree {
         let root = s.fs.root_dir();
